@@ -50,4 +50,5 @@ VARIANTS += [
     M('C03', 'emptiness-tested-on-the-stripped-string-always', E(RX, "                stripped = s.strip() if self.strip else s\n                L = len(stripped)\n                if self.remove_empties and L == 0:", "                stripped = s.strip() if self.strip else s\n                L = len(s.strip())\n                if self.remove_empties and L == 0:"),
       rule='C03-DISCARD', key='strip=False,remove_empties=True'),
     M('C03', 'refactor-clean-without-length-local', E(RX, "                L = len(stripped)\n                if self.remove_empties and L == 0:", "                if self.remove_empties and not stripped:"), kind='refactor'),
+    M('C03', 'final-pass-takes-only-a-sample', E(RX, "                elif (len(failex.strings) <= size.do_all_exceptions\n                      or attempt > size.max_sampled_attempts):", "                elif len(failex.strings) <= size.do_all_exceptions:"), rule='C03-EXTRACT', key='five-layouts'),
 ]
